@@ -99,7 +99,9 @@ MayFailUp(n, e, id) ==
 Harmless == Ignored \cup {"error", "channel_reestablish"}
 \* after a crash in the run a broken promise about what was pending is C10's, otherwise C01's
 GF(p) == IF fw.crashed = {} THEN G1(p) ELSE G10(p)
-GE(p) == IF fw.crashed = {} THEN G2(p) ELSE G10(p)
+\* (the forwarding property holds "across ... restarts at any point" too: end-to-end loss after a crash is both's)
+G210(p) == ("C02" \in Relax) \/ ("C10" \in Relax) \/ p
+GE(p) == IF fw.crashed = {} THEN G2(p) ELSE G210(p)
 TMsg ==
   /\ IsEvent("msg")
   /\ UNCHANGED <<nodeOf, saved, projB>>
